@@ -51,6 +51,7 @@ def failName : FailReason → String
   | .mppInProgress => "MppInProgress"
   | .typeMismatch => "TypeMismatch"
   | .ampError => "AmpError"
+  | .ampReconstruction => "AmpReconstruction"
 
 def settleName : SettleKind → String
   | .settled => "Settled"
@@ -82,11 +83,34 @@ def cstateStr : CState → String
 def hstateStr : HState → String
   | .accepted => "A" | .canceled => "C" | .settled => "S"
 
-def featStr (i : Invoice) : String :=
-  let s := (if i.tlv then "t" else "") ++ (if i.payAddrOpt then "p" else "") ++
-    (if i.payAddrReq then "P" else "") ++ (if i.mppOpt then "m" else "") ++
-    (if i.ampReq then "a" else "") ++ (if i.blinded then "b" else "")
+def featOf (tlv payAddrOpt payAddrReq mppOpt ampReq blinded : Bool) : String :=
+  let s := (if tlv then "t" else "") ++ (if payAddrOpt then "p" else "") ++
+    (if payAddrReq then "P" else "") ++ (if mppOpt then "m" else "") ++
+    (if ampReq then "a" else "") ++ (if blinded then "b" else "")
   if s.isEmpty then "-" else s
+
+def featStr (i : Invoice) : String :=
+  featOf i.tlv i.payAddrOpt i.payAddrReq i.mppOpt i.ampReq i.blinded
+
+/-- child preimage of `amp.ReconstructChildren`: root = xor of all shares,
+    preimage = SHA256(root ‖ share ‖ be32 index). -/
+def childPre (descs : List (Nat × Nat)) (share index : Nat) : Nat :=
+  let root := descs.foldl (fun a d => Nat.xor a d.1) 0
+  let idx := [(index / 16777216) % 256, (index / 65536) % 256, (index / 256) % 256, index % 256]
+  natOfBytes (Sha256.sha256 (bytes32 root ++ bytes32 share ++ idx))
+
+/-- the harness' canonical dump of an AMP invoice. -/
+def ampDump (i : AmpInv) : String :=
+  let hs := i.htlcs.toArray.qsort (fun a b => a.base.key < b.base.key) |>.toList
+  let htl := if hs.isEmpty then "-" else
+    ",".intercalate (hs.map fun h =>
+      let b := h.base
+      let p := match h.pre with | some p => hex64 p | none => "none"
+      s!"{b.key}:{b.amt}:{b.mppTotal}:{hstateStr b.state}:{b.expiry}:{b.acceptHeight}:{b.acceptTime}:{(hex64 h.setID).take 8}:{hex64 h.hash}:{p}")
+  let ss := i.sets.toArray.qsort (fun a b => (hex64 a.id).take 8 < (hex64 b.id).take 8) |>.toList
+  let sets := if ss.isEmpty then "-" else
+    ",".intercalate (ss.map fun x => s!"{(hex64 x.id).take 8}:{hstateStr x.state}:{x.amtPaid}")
+  s!"st={cstateStr i.state} paid={i.amtPaid} pre=none val={i.value} cltv={i.finalCltv} hodl=0 feat={featOf i.tlv i.payAddrOpt i.payAddrReq i.mppOpt true i.blinded} addr={hex64 i.payAddr} htlcs={htl} sets={sets}"
 
 /-- the harness' canonical dump, produced from the model invoice. -/
 def modelDump (i : Invoice) : String :=
@@ -155,6 +179,8 @@ structure NotifyRec where
   mpp : Option (Nat × String)
   amp : Option String      -- set id (hex)
   ks : String              -- "none" | hex | "-"
+  ampShare : String := ""
+  ampIndex : Nat := 0
   path : Option String := none   -- blinded path id (hex)
   tot : Nat := 0                 -- blinded total_amt_msat
   deriving Repr, Inhabited
@@ -162,7 +188,7 @@ structure NotifyRec where
 structure St where
   caseId : String := "0"
   -- config of the case
-  cfg : Cfg := ⟨0, false, false, 30, false⟩
+  cfg : Cfg := ⟨0, false, false, false, 30, false⟩
   ampOn : Bool := false
   -- model side
   reg : Reg := Reg.empty
@@ -417,6 +443,7 @@ def mkCtx (n : NotifyRec) : Ctx :=
     mpp := n.mpp.map (fun (t, a) => (t, hexNatD a)),
     pathID := n.path.map hexNatD, total := n.tot,
     amp := n.amp.isSome,
+    setID := (n.amp.map hexNatD).getD 0, share := hexNatD n.ampShare, index := n.ampIndex,
     ks := if n.ks == "none" then none
           else if n.ks.length == 64 then some (some (hexNatD n.ks)) else some none }
 
@@ -454,6 +481,7 @@ def step (s : St) (line : String) : IO St := do
   | "CASE" :: id :: rest =>
     let r := (kvInt? rest "R").getD 0
     let cfg : Cfg := { rejectDelta := r, acceptKeysend := kvNat? rest "ks" == some 1,
+                       acceptAMP := kvNat? rest "amp" == some 1,
                        ksHold := kvNat? rest "kshold" == some 1, hold := (kvNat? rest "hold").getD 30,
                        sql := kv? rest "store" == some "sql" }
     let s := { s with caseId := id, cfg := cfg, ampOn := kvNat? rest "amp" == some 1,
@@ -480,11 +508,11 @@ def step (s : St) (line : String) : IO St := do
         ampReq := feat.contains 'a', blinded := feat.contains 'b',
         hodl := kvNat? rest "hodl" == some 1 }
     if s.samples < 2 then IO.println s!"SAMPLE {line.take 300}"
-    if spec.ampReq then
-      -- AMP invoices are outside the model: monitor only for the rest of this case
+    if spec.ampReq && spec.hodl then
+      -- hold AMP invoices are outside the model: monitor only for the rest of this case
       return { s with modelOn := false }
     if !s.modelOn then return s
-    let (reg', out) := C15.step shaNat s.cfg s.reg (.addInvoice spec)
+    let (reg', out) := C15.step shaNat childPre s.cfg s.reg (.addInvoice spec)
     modelOp s reg' out s.opRes
   | "notify" :: rest =>
     let s ← startOp s "notify" line
@@ -497,6 +525,12 @@ def step (s : St) (line : String) : IO St := do
           | some a => some ((a.splitOn "/").headD "")
           | none => none,
         ks := (kv? rest "ks").getD "none",
+        ampShare := match kv? rest "amp" with
+          | some a => ((a.splitOn "/")[1]?).getD ""
+          | none => "",
+        ampIndex := match kv? rest "amp" with
+          | some a => (((a.splitOn "/")[2]?).bind nat?).getD 0
+          | none => 0,
         path := match kv? rest "path" with
           | some "none" => none
           | some a => some a
@@ -506,28 +540,26 @@ def step (s : St) (line : String) : IO St := do
     if s.samples ≤ 4 then IO.println s!"SAMPLE {line.take 300}"
     let s := if resClass s.opRes == "settle" || resClass s.opRes == "accept" then
       { s with nontrivial := s.nontrivial + 1 } else s
-    -- spontaneous AMP creates AMP invoices: outside the model
-    let s := if s.ampOn && n.amp.isSome then { s with modelOn := false } else s
     if !s.modelOn then return s
-    let (reg', out) := C15.step shaNat s.cfg s.reg (.notify (mkCtx n))
+    let (reg', out) := C15.step shaNat childPre s.cfg s.reg (.notify (mkCtx n))
     modelOp s reg' out s.opRes
   | "settle" :: rest =>
     let s ← startOp s "settle" line
     let s := if s.opRes == "ok" then { s with nontrivial := s.nontrivial + 1 } else s
     if !s.modelOn then return s
-    let (reg', out) := C15.step shaNat s.cfg s.reg (.settle (hexNatD ((kv? rest "pre").getD "")))
+    let (reg', out) := C15.step shaNat childPre s.cfg s.reg (.settle (hexNatD ((kv? rest "pre").getD "")))
     modelOp s reg' out s.opRes
   | "cancel" :: rest =>
     let s ← startOp s "cancel" line
     let s := if s.opRes == "ok" then { s with nontrivial := s.nontrivial + 1 } else s
     if !s.modelOn then return s
-    let (reg', out) := C15.step shaNat s.cfg s.reg (.cancel (hexNatD ((kv? rest "h").getD "")))
+    let (reg', out) := C15.step shaNat childPre s.cfg s.reg (.cancel (hexNatD ((kv? rest "h").getD "")))
     modelOp s reg' out s.opRes
   | "tick" :: rest =>
     let s ← startOp s "tick" line
     let s ← if s.opRes == "ok" then pure s else mismatch s s!"tick: impl={s.opRes} (hold timers did not fire)"
     if !s.modelOn then return s
-    let (reg', out) := C15.step shaNat s.cfg s.reg (.tick ((kvNat? rest "dt").getD 0))
+    let (reg', out) := C15.step shaNat childPre s.cfg s.reg (.tick ((kvNat? rest "dt").getD 0))
     modelOp s reg' out "ok"
   | "hodl" :: rest =>
     let k := (kvNat? rest "k").getD 0
@@ -555,7 +587,10 @@ def step (s : St) (line : String) : IO St := do
     if !s.modelOn then return s
     let m := match findHash s.reg.invs (hexNatD h) with
       | some i => modelDump i
-      | none => "none"
+      | none =>
+        match findAmp s.reg.amps (hexNatD h) with
+        | some a => ampDump a
+        | none => "none"
     if m == r then return s
     else mismatch s s!"inv {h.take 8}: model={m} impl={r}"
   | [] => return s
